@@ -38,6 +38,7 @@ Fam(e) == IF Op(e) \in {"keyswitch", "keyswitch_assign"} THEN "ks"
           ELSE IF Op(e) \in {"gglwe_ks", "gglwe_ks_assign"} THEN "gglwe"
           ELSE IF Op(e) \in {"trace", "trace_assign"} THEN "trace"
           ELSE IF Op(e) = "pack" THEN "pack"
+          ELSE IF Op(e) = "packer" THEN "packer"
           ELSE IF Op(e) \in {"lwe_keyswitch", "lwe_from_glwe", "glwe_from_lwe"} THEN "lwe"
           ELSE IF Op(e) = "sample_extract" THEN "extract"
           ELSE IF Op(e) = "lwe_encdec" THEN "lweenc"
@@ -88,7 +89,39 @@ Bound(e, res) ==
              per == CallBound(e, x, x) + 6 * (1 + N1(e)) + 2
          IN ToOutUlps(Min(Sat, nodes * per), Bits(x), ob) + TraceBound(e, x, res, LogN(e) - e.gap) + 1
     [] OTHER -> 0
+\* ---- the streaming packer (Packer.tla: MC_Packer checks the carry chain against this statement): after the
+\* N / 2^log_batch inputs of a round, coefficient BitRev(j) + u * N / 2^log_batch of the output is coefficient
+\* u * N / 2^log_batch of input j (zero for an absent input); every other coefficient of the inputs vanishes
+RECURSIVE BitRevK(_, _)
+BitRevK(j, bits) == IF bits = 0 THEN 0 ELSE (j % 2) * Pow2(bits - 1) + BitRevK(j \div 2, bits - 1)
+PackerImage(e, ins, ob) ==
+  LET lb == e.log_batch
+      stride == NN(e) \div Pow2(lb)
+      ph == [k \in 1..Len(ins) |-> IF ins[k].rank < 0 THEN PZero(NN(e)) ELSE Resc(PhaseVec(ins[k], e.sk_in), Bits(ins[k]), ob)]
+  IN [c \in 1..NN(e) |->
+        LET u == (c - 1) \div stride
+            r == (c - 1) % stride
+            J == {j \in 0..(Len(ins) - 1) : BitRevK(j, LogN(e) - lb) = r}
+        IN IF J = {} THEN 0 ELSE ph[(CHOOSE x \in J : TRUE) + 1][u * stride + 1]]
+PackerBound(e, out) ==
+  LET x == [b |-> e.bin, size |-> e.sin]
+      ob == OutBits(out)
+      \* one level maps errors (ea, eb) to (ea + eb + phi(ea - eb)) / 2 + r <= 2 max(ea, eb) + r, r = one automorphism call
+      \* plus the roundings of the halvings / normalisations: after LogN levels at most (N - 1) r
+      nodes == NN(e) - 1
+      per == CallBound(e, x, x) + 6 * (1 + N1(e)) + 2
+  IN ToOutUlps(Min(Sat, nodes * per), Bits(x), ob) + 2 * (1 + N1(e)) + 1
+PackerOK(e, res) ==
+  /\ Len(res.rounds) = Len(e.a.rounds)
+  /\ \A ri \in 1..Len(res.rounds) :
+       LET out == res.rounds[ri]
+           ob == OutBits(out)
+           want == PackerImage(e, e.a.rounds[ri], ob)
+           pout == PhaseVec(out, e.sk_out)
+           B == PackerBound(e, out)
+       IN \A c \in 1..NN(e) : CycDist(pout[c], want[c] % Pow2(ob), Pow2(ob)) <= B
 Meaningful(e, res) ==
+  IF Fam(e) = "packer" THEN PackerBound(e, res.rounds[1]) <= Pow2(OutBits(res.rounds[1])) \div 16 ELSE
   IF Fam(e) = "gglwe" THEN LET c == res.rows[1][1] IN PhaseBound([e EXCEPT !.a = e.a.rows[1][1]], c) <= Pow2(OutBits(c)) \div 16
   ELSE Fam(e) \in {"extract", "lweenc"} \/ Bound(e, res) <= Pow2(OutBits(res)) \div 16
 
@@ -122,6 +155,7 @@ GglweKsOK(e, res) ==
   /\ Len(res.rows) <= Len(e.a.rows)
   /\ \A r \in 1..Len(res.rows) : \A c \in 1..Len(res.rows[r]) : PhaseOK([e EXCEPT !.a = e.a.rows[r][c]], res.rows[r][c])
 FamOK(e, res) ==
+  IF Fam(e) = "packer" THEN PackerOK(e, res) ELSE
   IF Fam(e) = "gglwe" THEN GglweKsOK(e, res) ELSE
   IF Fam(e) = "lweenc" THEN LweEncDecOK(e, res) ELSE
   IF Fam(e) = "extract" THEN ExtractOK(e, res)
